@@ -74,6 +74,25 @@ func (b *Built) Finalize() {
 // partial table through a wrapper that is used again later.  Items are left in their
 // pre-mutation state: call Finalize before the judged render.
 func (s *TableSpec) BuildStaged(t tabular.Table, at int, mid func()) *Built {
+	return s.BuildStagedN(t, []int{at}, mid)
+}
+
+// BuildStagedN is BuildStaged with several intermediate points (mid is called at each of them, in build order).
+func (s *TableSpec) BuildStagedN(t tabular.Table, ats []int, mid func()) *Built {
+	isAt := func(i int) bool {
+		for _, a := range ats {
+			if a == i {
+				return true
+			}
+		}
+		return false
+	}
+	at := -1
+	for _, a := range ats {
+		if a >= len(s.Rows) {
+			at = a
+		}
+	}
 	b := &Built{T: t, Cells: make([][]Made, len(s.Rows))}
 	hdr := func() {
 		if !s.HasHeader {
@@ -88,7 +107,7 @@ func (s *TableSpec) BuildStaged(t tabular.Table, at int, mid func()) *Built {
 		t.AddHeaders(items...)
 	}
 	for i := range s.Rows {
-		if at == i && mid != nil {
+		if isAt(i) && mid != nil {
 			mid()
 		}
 		if s.HeaderAt == i {
